@@ -1,5 +1,6 @@
 import EaselModel.Ssi.Reader
 import EaselModel.Ssi.History
+import EaselModel.Ssi.Auto
 /-! # C06 — property theorems (statements + glue only; lemmas live in Ssi/*.lean)
 
 `ns : NewSsi` is the model of the `ESL_NEWSSI` under construction, `ns.WF` says it is what the `esl_newssi_Add*`
@@ -202,6 +203,32 @@ theorem history_write (ops : List Op) (hv : ∀ op ∈ ops, op.Valid) (hf : (log
     (hn : ops.length < 2^40) (cur : Option Bytes) :
     (logical ops).WF ∧ ((run ops).write cur).2 = ((logical ops).write cur).2 :=
   run_write_eq_logical ops hv hf hn cur
+
+/-- THE AUTOMATIC SWITCH. A successful `AddKey`/`AddAlias` leaves the index in external (on-disk) mode iff it already
+    was, or `current_newssi_size` — ⌊(78 + (16+flen)·nfiles + (26+plen)·nprimary + (slen+plen)·nsecondary) / 2^20⌋ MB,
+    from the counts and field widths before the call — had reached `max_ram` (2048 by default; any value, also ≤ 0,
+    when the public field was assigned). `history_write` below quantifies over every history and therefore over every
+    point at which this trigger fires, by itself at ≥ 2 GB or through a lowered `max_ram`. -/
+theorem auto_switch_trigger (ns ns' : NewSsi) :
+    (∀ key fh r d l, ns.addKey key fh r d l = .ok ns' →
+        ns'.external = (ns.external || decide ((ns.currentSize : Int) ≥ ns.maxRam))) ∧
+    (∀ a k, ns.addAlias a k = .ok ns' →
+        ns'.external = (ns.external || decide ((ns.currentSize : Int) ≥ ns.maxRam))) ∧
+    ns.currentSize = (78 + (16 + ns.flen) * ns.files.length + (26 + ns.plen) * ns.nprimary
+                        + (ns.slen + ns.plen) * ns.nsecondary) / 1048576 :=
+  ⟨fun key fh r d l h => addKey_external ns ns' key fh r d l h, fun a k h => addAlias_external ns ns' a k h,
+   currentSize_eq ns⟩
+
+/-- the switch is one-way: no call brings an external index back into memory -/
+theorem external_is_permanent (ns : NewSsi) (ops : List Op) (h : ns.external = true) :
+    (ops.foldl step ns).external = true := by
+  induction ops generalizing ns with
+  | nil => exact h
+  | cons op ops ih => exact ih _ (step_external_mono ns op h)
+
+/-- with the default 2048 MB the trigger fires by itself: 9.5 million 200-byte keys are enough, 9.4 million are not -/
+example : ({ plen := 201, nprimary := 9500000 } : NewSsi).maybeExternal.external = true := by decide
+example : ({ plen := 201, nprimary := 9400000 } : NewSsi).maybeExternal.external = false := by decide
 
 /-- end to end: after any valid history (external switch anywhere), `Write` succeeds iff the keys are distinct per
     class; and on the bytes it wrote every stored primary key is found with its stored record and every string that
